@@ -30,6 +30,8 @@ use crate::value::Value;
 use crate::vm::Vm;
 
 const STACK_MAX: usize = common::LOCALS_MAX * common::FRAMES_MAX;
+#[cfg(feature = "verif_hooks")]
+pub(crate) const VERIF_STACK_MAX: usize = STACK_MAX;
 
 #[derive(Clone, Debug)]
 pub struct ObjString {
@@ -191,6 +193,10 @@ impl ObjUpvalue {
     }
 
     pub(crate) fn get(&self) -> Value {
+        #[cfg(feature = "verif_hooks")]
+        if let ObjUpvalueState::Open(a) = self.data {
+            crate::memory::verif::check_stack_ptr(a as usize, "read");
+        }
         match self.data {
             ObjUpvalueState::Open(a) => unsafe { *a },
             ObjUpvalueState::Closed(v) => v,
@@ -198,6 +204,10 @@ impl ObjUpvalue {
     }
 
     pub(crate) fn set(&mut self, value: Value) {
+        #[cfg(feature = "verif_hooks")]
+        if let ObjUpvalueState::Open(a) = self.data {
+            crate::memory::verif::check_stack_ptr(a as usize, "write");
+        }
         match self.data {
             ObjUpvalueState::Open(a) => unsafe { *a = value },
             ObjUpvalueState::Closed(ref mut v) => *v = value,
